@@ -105,6 +105,9 @@ class _NormFolds(ast.NodeTransformer):
         if isinstance(node.func, ast.Name) and node.func.id == "Aggregate" and len(node.args) == 3 \
                 and isinstance(node.args[2], ast.Lambda) and len(node.args[2].args.args) == 2:
             node.args[2] = ast.Name(f"__fold_{classify_fold(node.args[2])}", ast.Load())
+            if isinstance(node.args[1], ast.Constant) and not isinstance(node.args[1].value, (str, bytes)) \
+                    and node.args[1].value == 0:
+                node.args[1] = ast.Constant(0)  # 0, 0.0, False: any zero seed (the values are compared separately)
         return node
 
 
